@@ -169,6 +169,19 @@ def determinism_check(prop, seeds, fresh=True):
 
 # ------------------------------------------------------------------ known findings
 
+def corpus_files(prop):
+    import glob
+    out = []
+    for sub in ('findings', 'corpus'):
+        for path in sorted(glob.glob(os.path.join(ROOT, sub, '*.json'))):
+            try:
+                if json.load(open(path)).get("property") == prop:
+                    out.append(path)
+            except Exception:                           # pylint: disable=W0703
+                pass
+    return out
+
+
 def load_known():
     path = os.path.join(ROOT, 'KNOWN_FINDINGS.txt')
     known = []
@@ -267,6 +280,29 @@ def run_check(prop, tier, jobs, budget, verif_seed):
              "violations": {}, "errors": [], "samples": [], "vtime": 0.0,
              "nontrivial": 0}
     shapes, nt_shapes = set(), set()
+    # --- regression corpus: the minimised scenarios of every defect found so
+    # far (findings/) and of every seeded change caught so far (corpus/) are
+    # re-judged first, with all the clauses of this property's oracle
+    corpus = corpus_files(prop)
+    for path in corpus:
+        doc = json.load(open(path))
+        try:
+            res = cases.evaluate_case(prop, doc["case"])
+        except Exception:                               # pylint: disable=W0703
+            total["errors"].append("corpus {}: {}".format(
+                path, traceback.format_exc()))
+            continue
+        total["evaluations"] += 1
+        total["runs"] += 1 + res.extra_runs
+        shapes.add(res.shape)
+        for v in res.violations:
+            slot = total["violations"].setdefault(
+                v.sig, {"count": 0, "first": []})
+            slot["count"] += 1
+            slot["first"].append({
+                "seed": -1, "index": 0, "case": doc["case"],
+                "violation": v.as_dict(), "digest": cases.digest(res),
+                "corpus": os.path.relpath(path, ROOT)})
     n_quick = QUICK_SEEDS[prop]
     ctx = multiprocessing.get_context('fork')
     next_seed = seed0
@@ -439,6 +475,7 @@ def write_evidence(prop, tier, verif_seed, seed0, seed_end, total, n_shapes,
         "probes": {k: v for k, v in sorted(stats.items())
                    if not k.startswith('fault:')},
         "determinism": det_detail,
+        "regression_corpus_replayed": len(corpus_files(prop)),
         "components": COMPONENTS,
         "violations_reported": reported,
         "known_findings_seen": known_hit,
@@ -492,6 +529,7 @@ def write_evidence_b(prop, tier, verif_seed, seed0, seed_end, total, n_shapes,
                        "explored (DESIGN.md section 6)",
         "probes": {k: v for k, v in sorted(stats.items())},
         "determinism": det_detail,
+        "regression_corpus_replayed": len(corpus_files(prop)),
         "components": {
             "real_code": ["asynciojobs graph/construction API (Sequence, "
                           "requires, add/update/remove, sanitize, "
